@@ -308,7 +308,10 @@ AddC(e) ==
   ELSE LET c == Append(cache, e)
        IN  IF cfg.ck = "lru" /\ Len(c) > cfg.cn THEN Tail(c) ELSE c
 
-\* e.queryCache.Get; on a miss: parse and the no-operation check (local)
+\* e.queryCache.Get; on a miss: parse - under the server's token limit, so a
+\* document with more tokens (class "tlim") ends here exactly like one that
+\* does not parse, whatever it would have executed - and the no-operation
+\* check (local)
 CacheGet(r) ==
   /\ pc[r] = "cget"
   /\ LET p == rq[r] IN
@@ -318,7 +321,7 @@ CacheGet(r) ==
             /\ Goto(r, PostDoc(p))
        ELSE /\ cache' = cache
             /\ glog'  = Append(glog, [r |-> r, op |-> "cget", d |-> "miss"])
-            /\ Goto(r, IF p.cls \in {"perr", "noop"} THEN ErrStage
+            /\ Goto(r, IF p.cls \in {"perr", "tlim", "noop"} THEN ErrStage
                        ELSE [pc   |-> IF cfg.sugg /\ RuleModel # "config" THEN "rm" ELSE "validate",
                              todo |-> <<>>])
   /\ UNCHANGED <<cfg, hdr, arrs, rq, log, tmp>>
